@@ -1,18 +1,19 @@
 -------------------------------- MODULE Trace --------------------------------
 (* Universal trace specification: dispatches every event to its package.   *)
-EXTENDS TraceDate, TraceRoman, TraceUU, TraceSem
+EXTENDS TraceDate, TraceRoman, TraceUU, TraceSem, TraceSize
 
-TraceInit == TraceBaseInit /\ DateInit /\ RomanInit /\ UUInit /\ SemInit
+TraceInit == TraceBaseInit /\ DateInit /\ RomanInit /\ UUInit /\ SemInit /\ SizeInit
 
 TraceNext ==
   \/ /\ l <= Len(Trace)
      /\ LET e == Trace[l] IN
-          \/ IsDateOp(e)  /\ DateStep(e)  /\ UNCHANGED <<rvars, uvars, svars>>
-          \/ IsRomanOp(e) /\ RomanStep(e) /\ UNCHANGED <<dvars, uvars, svars, ctx>>
-          \/ IsUUOp(e)    /\ UUStep(e)    /\ UNCHANGED <<dvars, rvars, svars, ctx>>
-          \/ IsSemOp(e)   /\ SemStep(e)   /\ UNCHANGED <<dvars, rvars, uvars, ctx>>
+          \/ IsDateOp(e)  /\ DateStep(e)  /\ UNCHANGED <<rvars, uvars, svars, zvars>>
+          \/ IsRomanOp(e) /\ RomanStep(e) /\ UNCHANGED <<dvars, uvars, svars, zvars, ctx>>
+          \/ IsUUOp(e)    /\ UUStep(e)    /\ UNCHANGED <<dvars, rvars, svars, zvars, ctx>>
+          \/ IsSemOp(e)   /\ SemStep(e)   /\ UNCHANGED <<dvars, rvars, uvars, zvars, ctx>>
+          \/ IsSizeOp(e)  /\ SizeStep(e)  /\ UNCHANGED <<dvars, rvars, uvars, svars, ctx>>
      /\ l' = l + 1
-  \/ Finish /\ UNCHANGED <<dvars, rvars, uvars, svars>>
+  \/ Finish /\ UNCHANGED <<dvars, rvars, uvars, svars, zvars>>
 
-TraceSpec == TraceInit /\ [][TraceNext]_<<tvars, dvars, rvars, uvars, svars>>
+TraceSpec == TraceInit /\ [][TraceNext]_<<tvars, dvars, rvars, uvars, svars, zvars>>
 =============================================================================
